@@ -230,6 +230,27 @@ def step (line : String) : String :=
       | .error .dxfValueError => "err DXFValueError"
       | .error .zeroDivision => "err ZeroDivisionError"
     | _, _, _, _, _ => "bad-op"
+  | ["elev1", t, ua, ub, pts] =>     -- degree_elevation of a single Bezier segment
+    match t.toNat?, parseRat ua, parseRat ub, parseV3s pts with
+    | some t, some a, some b, some p =>
+      let r := elevateBezier p t a b
+      "ok " ++ showRats r.2 ++ "|" ++ showV3s r.1
+    | _, _, _, _ => "bad-op"
+  | ["decomp", order, knots, weights, cps] =>     -- BSpline.bezier_decomposition
+    match order.toNat?, parseRats knots, parseRats weights, parseV3s cps with
+    | some o, some k, some w, some p =>
+      match bezierDecomposition k w p o with
+      | .ok segs => "ok " ++ ";".intercalate (segs.map showV3s)
+      | .error _ => "err TypeError"
+    | _, _, _, _ => "bad-op"
+  | ["tvec", ds] =>     -- parametrize._normalize_distances
+    match parseRats ds with
+    | some d => "ok " ++ showRats (normalizeDistances d)
+    | none => "bad-op"
+  | ["aknots", n, p, t] =>   -- averaged_knots_unconstrained
+    match n.toNat?, p.toNat?, parseRats t with
+    | some n, some p, some t => "ok " ++ showRats (averagedKnotsUnconstrained n p t)
+    | _, _, _ => "bad-op"
   | ["revk", knots] =>
     match parseRats knots with
     | some k => showRats (reverseKnots k)
